@@ -81,13 +81,32 @@ func runHist(ch *simrt.Chooser, opt Options) RunResult {
 
 	h := &Hist{prop: opt.Prop, byPtr: map[uintptr]*Node{}, rel: map[[2]int]string{}, counters: res.Counters,
 		derivedOK: opt.Prop == "C19", maxSlots: 16, maxNodes: 32}
-	if ch.Draw("size-class", 5) == 0 {
-		// a fifth of the runs may grow containers well past the small-capacity steps (1, 2, 4, 8, 16, 32)
-		h.maxSlots, h.big = 48, true
+	switch ch.Draw("size-class", 12) {
+	case 0, 1:
+		// some runs may grow containers well past the small-capacity steps (1, 2, 4, 8, 16, 32)
+		h.maxSlots, h.big, h.sizeClass = 48, true, 1
 		res.Counters["size-class:big"]++
+	case 2:
+		// a list far beyond any size threshold an implementation may switch strategy at (64 .. 1025 elements)
+		h.sizeClass = 2
+		res.Counters["size-class:huge-list"]++
+	case 3:
+		// a chain nested 9 .. 200 levels deep
+		h.sizeClass = 3
+		res.Counters["size-class:deep-chain"]++
 	}
 	out := simrt.Run(ch, cfg, func(s *simrt.Sim) {
 		h.d = s
+		switch h.sizeClass {
+		case 2:
+			s.Begin("op")
+			opNewHuge(h)
+			s.End()
+		case 3:
+			s.Begin("op")
+			opNewDeep(h)
+			s.End()
+		}
 		for i := 0; i < steps && !h.dead; i++ {
 			s.Begin("op")
 			x := s.Draw("op", total)
